@@ -287,4 +287,10 @@ _FIFO_T = {"MaxTables": 4, "Times": {1, 2, 3}, "Sizes": {1, 2}, "BlobBytes": {0,
 PROFILES["C19"]["quick"]["fifo_model"] = {"constants": _FIFO_Q, "apalache_maxlen": 4}
 PROFILES["C19"]["thorough"]["fifo_model"] = {"constants": _FIFO_T, "timeout": 3000, "workers": 12,
                                              "apalache_maxlen": 8, "apalache_timeout": 3000}
+# the same model with a compaction filter that writes fresh blobs / removes separated values (C17)
+PROFILES["C17"]["quick"]["blob_model"] = blob_model(
+    Ops=_BM_OPS, Vals={1, 2}, FilterRules="<- RulesBlob", MaxSeq=4, MaxHist=2, DestLevels={6})
+PROFILES["C17"]["thorough"]["blob_model"] = blob_model(
+    timeout=3000, workers=12, Ops=_BM_OPS, Vals={1, 2}, FilterRules="<- RulesBlob", MaxSeq=6, MaxHist=2,
+    DestLevels={6})
 
